@@ -90,67 +90,81 @@ ELIF = "nodes::expressions::if_expression::ElseIfExpressionBranch"
 
 
 def if_effects(R, ctx, rid="C08.if-effects"):
-    """Path rule on Evaluator::if_expression_has_side_effects."""
-    from .. import absint
+    """Soundness table of Evaluator::if_expression_has_side_effects by finite-domain evaluation."""
+    import itertools
+    from .. import peval
+    from ..peval import Enum, Struct, UNKNOWN, NONE, some
     lib = ctx.lib
-    R.rule(rid, "if_expression_has_side_effects: the condition is always asked first; on the path where the condition's truthiness is unknown, "
-                "has_side_effects is asked about the result, every elseif *condition*, every elseif result and the else result (all of them may "
-                "be evaluated at run time); when the condition is known false, about every elseif condition before its result, and the else result")
+    R.rule(rid, "if_expression_has_side_effects is sound: evaluated on an abstract `if c then r elseif c0 then r0 elseif c1 then r1 else e` for every "
+                "combination of what the evaluator knows about the truthiness of c, c0, c1 (27) and every single effectful part (7): whenever "
+                "the effectful part MAY be evaluated at run time (c always; r unless c is known false; c0 unless c is known true; r0 unless c0 is "
+                "known false; ...; e unless some condition is known true) the function answers true. Otherwise the expression is declared "
+                "effect-free and removed or folded together with the effect")
     fn = lib.fn(EV + "::if_expression_has_side_effects")
     if not R.require(rid, "anchor", fn is not None, "", "not found"):
         return
-    fa = ctx.an.fa(fn["path"])
+    for adt, names in ((IFE, ["condition", "result", "else_result", "branches"]), (ELIF, ["condition", "result"])):
+        a_ = lib.adts.get(adt)
+        have = {f["name"] for v in a_["variants"] for f in v["fields"]} if a_ else set()
+        if not R.require(rid, "anchor:fields:" + adt.split("::")[-1], set(names) <= have, ctx.adt_where(adt) if a_ else "", "fields %s" % names):
+            return
 
-    def slot_of(e):
-        o = {x for x in fa.origins(e) if x[0] in (IFE, ELIF)}
-        for s_ in ((ELIF, "condition"), (ELIF, "result"), (IFE, "condition"), (IFE, "result"), (IFE, "else_result")):
-            if s_ in o:
-                return s_
-        return None
+    def leaf(tag):
+        return Enum(EXPR, "Identifier", {"0": tag})
+    ife = Struct(IFE, {"condition": leaf("c"), "result": leaf("r"), "else_result": leaf("e"),
+                       "branches": [Struct(ELIF, {"condition": leaf("c0"), "result": leaf("r0")}), Struct(ELIF, {"condition": leaf("c1"), "result": leaf("r1")})]})
+    know_vals = {"unknown": NONE, "true": some(True), "false": some(False)}
+    parts = ["c", "r", "c0", "r0", "c1", "r1", "e"]
+    n = 0
+    bad = {}
+    unknown_cells = 0
+    for kc, k0, k1 in itertools.product(know_vals, repeat=3):
+        know = {"c": kc, "c0": k0, "c1": k1}
+        may = {"c"}
+        if kc != "false":
+            may.add("r")
+        if kc != "true":
+            may.add("c0")
+            if k0 != "false":
+                may.add("r0")
+            if k0 != "true":
+                may.add("c1")
+                if k1 != "false":
+                    may.add("r1")
+                if k1 != "true":
+                    may.add("e")
+        for x in parts:
+            if x not in may:
+                continue
 
-    def atom(e):
-        # `if let Some(truthy) = condition.is_truthy()`  /  `if truthy`
-        if e.get("k") == "Let" and any(c.get("fname") == "is_truthy" for c in fa.source_calls(e["e"])):
-            src = [c for c in fa.source_calls(e["e"]) if c.get("fname") == "evaluate"]
-            sl = slot_of(src[0]["args"][1]) if src else None
-            return ("known", sl)
-        if e.get("k") == "Var" and e.get("name") == "truthy":
-            return ("truthy", e["var"])
-        return None
-
-    def event(c):
-        if c.get("fname") == "has_side_effects" and len(c["args"]) >= 2:
-            sl = slot_of(c["args"][1])
-            if sl:
-                return ("hse",) + sl
-        return None
-    it = absint.Interp(atom, event)
-    try:
-        paths = it.run(thir.body_of(fn))
-    except RuntimeError:
-        paths = []
-    R.require(rid, "anchor:paths", len(paths) >= 3, ctx.where(fn), "%d paths enumerated" % len(paths))
-    # all paths: first event is the main condition
-    first_ok = all(p.events and p.events[0] == ("hse", IFE, "condition") for p in paths)
-    R.ob(rid, "condition-asked-first", first_ok, ctx.where(fn), "every path starts with has_side_effects(condition): %s" % first_ok)
-    unknown = [p for p in paths if p.assign.get(("known", (IFE, "condition"))) is False]
-    R.require(rid, "anchor:unknown-path", len(unknown) >= 1, ctx.where(fn), "path with unknown condition truthiness not recognised")
-    need = [(IFE, "result"), (ELIF, "condition"), (ELIF, "result"), (IFE, "else_result")]
-    for sl in need:
-        # among the unknown-condition paths, those that run to the end (final result not decided by an early `return true`)
-        full = [p for p in unknown if ("hse", IFE, "else_result") in p.events]
-        ok = bool(full) and all(("hse",) + sl in p.events for p in full if _enters_loop(p) or sl[0] == IFE)
-        R.ob(rid, "unknown-condition|asks|%s.%s" % (sl[0].split("::")[-1], sl[1]), ok, ctx.where(fn),
-             "on the unknown-truthiness path has_side_effects(%s.%s) is %s" % (sl[0].split("::")[-1], sl[1], "asked" if ok else "NOT asked: an effectful elseif condition/result is declared effect-free and dropped with the expression"))
-    falsy = [p for p in paths if p.assign.get(("known", (IFE, "condition"))) is True and any(k[0] == "truthy" and v is False for k, v in p.assign.items() if isinstance(k, tuple))]
-    if falsy:
-        full = [p for p in falsy if ("hse", IFE, "else_result") in p.events and _enters_loop(p)]
-        ok = bool(full) and all(("hse", ELIF, "condition") in p.events for p in full)
-        R.ob(rid, "false-condition|asks|ElseIfExpressionBranch.condition", ok, ctx.where(fn), "known-false condition: every elseif condition is asked: %s" % ok)
-
-
-def _enters_loop(p):
-    return any(e[0] == "hse" and e[1] == ELIF for e in p.events)
+            def hook(pe, path, fname, args, node, x=x, know=know):
+                if fname == "has_side_effects" and len(args) == 2 and isinstance(args[1], Enum) and args[1].adt == EXPR:
+                    return args[1].fields.get("0") == x
+                if fname == "evaluate" and len(args) == 2 and isinstance(args[1], Enum):
+                    return Struct("#LuaValue", {"of": args[1].fields.get("0")})
+                if args and isinstance(args[0], Struct) and args[0].adt == "#LuaValue":
+                    if fname == "is_truthy":
+                        return know_vals[know.get(args[0].fields["of"], "unknown")]
+                    return UNKNOWN
+                return NotImplemented
+            pe = peval.PEval(lib, ctx.an, hook)
+            try:
+                v = pe.call_fn(fn, [Struct("#Evaluator", {}), ife])
+            except peval.OutOfFuel:
+                v = UNKNOWN
+            n += 1
+            if v is not True:
+                bad.setdefault(x, []).append(("c=%s,c0=%s,c1=%s" % (kc, k0, k1), v, pe.unknown_reasons[:1]))
+                if v is not False:
+                    unknown_cells += 1
+    R.require(rid, "floor:cells", n >= 100, ctx.where(fn), "%d (knowledge, effectful part) cells evaluated" % n)
+    names = {"c": "IfExpression.condition", "r": "IfExpression.result", "c0": "ElseIfExpressionBranch.condition", "r0": "ElseIfExpressionBranch.result",
+             "c1": "ElseIfExpressionBranch.condition(2nd)", "r1": "ElseIfExpressionBranch.result(2nd)", "e": "IfExpression.else_result"}
+    for x in parts:
+        b = bad.get(x, [])
+        R.ob(rid, "effect-in|%s" % names[x], not b, ctx.where(fn),
+             "an effect in %s is reported in every knowledge state where it may run" % names[x] if not b else
+             "an effect in %s is %s when %s: the if-expression is treated as effect-free" % (names[x], "NOT reported" if b[0][1] is False else "not established (%s)" % b[0][2], b[0][0]))
 
 
 def run(R, ctx):
